@@ -243,18 +243,63 @@ func condFacts(b *ssa.BasicBlock) []Fact {
 		condFactsDepth++
 		for _, ft := range append([]Fact{}, out...) {
 			phi, ok := ft.Cond.(*ssa.Phi)
+			nilTest := false
+			edgePossible := func(e ssa.Value) bool { return true }
 			if !ok {
-				continue
+				// a comparison of a phi with a constant (`p != nil`, `idx >= 0` on the "found" result of an inlined search
+				// helper): incoming constants for which the comparison has the other outcome did not come in; the phi
+				// arrived through one of the remaining edges
+				if bo, isBo := ft.Cond.(*ssa.BinOp); isBo && isComparison(bo.Op) {
+					op := bo.Op
+					var other ssa.Value
+					var k *ssa.Const
+					if c, isC := bo.Y.(*ssa.Const); isC {
+						other, k = bo.X, c
+					} else if c, isC := bo.X.(*ssa.Const); isC {
+						other, k = bo.Y, c
+						op = flipCmp(op)
+					}
+					if ph, isPhi := other.(*ssa.Phi); isPhi && k != nil {
+						truth := ft.Truth
+						if k.Value == nil && (op == token.EQL || op == token.NEQ) {
+							phi, ok, nilTest = ph, true, true
+							wantNil := (op == token.EQL) == truth
+							edgePossible = func(e ssa.Value) bool { return wantNil || !isNilConst(e) }
+						} else if k.Value != nil && k.Value.Kind() == constant.Int {
+							phi, ok, nilTest = ph, true, true
+							edgePossible = func(e ssa.Value) bool {
+								ec, isC := e.(*ssa.Const)
+								if !isC || ec.Value == nil || ec.Value.Kind() != constant.Int {
+									return true
+								}
+								return constant.Compare(ec.Value, op, k.Value) == truth
+							}
+						}
+					}
+				}
+				if !ok {
+					continue
+				}
 			}
 			var common map[string]Fact
 			all := true
 			n := 0
-			if b, isB := phi.Type().Underlying().(*types.Basic); !isB || b.Kind() != types.Bool {
+			if b, isB := phi.Type().Underlying().(*types.Basic); !nilTest && (!isB || b.Kind() != types.Bool) {
 				continue
 			}
 			for i, e := range phi.Edges {
+				// an incoming back edge: the facts that held when it was taken speak about values of an earlier
+				// iteration - nothing is imported through such a phi
+				if phi.Block().Dominates(phi.Block().Preds[i]) {
+					all = false
+					break
+				}
 				var own *Fact
-				if cv, isC := e.(*ssa.Const); isC {
+				if nilTest {
+					if !edgePossible(e) {
+						continue // the comparison excludes this incoming constant
+					}
+				} else if cv, isC := e.(*ssa.Const); isC {
 					if cv.Value == nil || cv.Value.Kind() != constant.Bool {
 						all = false
 						break
@@ -382,6 +427,24 @@ func stripConv(v ssa.Value) ssa.Value {
 			v = x.X
 		case *ssa.Convert:
 			v = x.X
+		case *ssa.Phi:
+			// a phi all of whose incoming values are one and the same value (the result variable of an inlined
+			// helper that returns the same local from several places) is that value
+			var one ssa.Value
+			for _, e := range x.Edges {
+				if e == ssa.Value(x) {
+					continue
+				}
+				if one == nil {
+					one = e
+				} else if one != e {
+					return v
+				}
+			}
+			if one == nil {
+				return v
+			}
+			v = one
 		default:
 			return v
 		}
@@ -483,6 +546,9 @@ func accessPathD(v ssa.Value, depth int) string {
 		var args []string
 		for _, a := range x.Call.Args {
 			args = append(args, accessPathD(a, depth+1))
+		}
+		if s, ok := newAccessorPath(x, args, depth); ok {
+			return s
 		}
 		if x.Call.IsInvoke() {
 			return accessPathD(x.Call.Value, depth+1) + "." + x.Call.Method.Name() + "(" + strings.Join(args, ",") + ")"
@@ -1136,4 +1202,73 @@ func reachesBack(hb *ssa.BasicBlock, edge int) bool {
 		}
 	}
 	return false
+}
+
+
+// isNewFunc: a named function of the module (exported or not) that the reference tree does not have.
+func isNewFunc(fn *ssa.Function) bool {
+	if fn == nil || fn.Parent() != nil || fn.Synthetic != "" || fn.Blocks == nil || !inModule(fnPkgPath(fn)) || fn.Object() == nil {
+		return false
+	}
+	name := fn.Name()
+	if recv := fn.Signature.Recv(); recv != nil {
+		if n := namedOf(recv.Type()); n != nil {
+			name = n.Obj().Name() + "." + name
+		}
+	}
+	return !loadKnownFuncs()[relPkg(fnPkgPath(fn))+"|"+name]
+}
+
+// newAccessorPath renders a call of a *new* trivial accessor (a function added after the reference tree whose whole
+// body is `return <field path of a parameter>`, e.g. func (ctx *EntryContext) InputArgs() []interface{} { return
+// ctx.Input.Args }) as the path it returns, so that code reading a field through such an accessor looks to the rules
+// like code reading the field. Accessors of the reference tree keep their call rendering (the rules' vocabulary).
+func newAccessorPath(call *ssa.Call, args []string, depth int) (string, bool) {
+	fn := call.Call.StaticCallee()
+	if !isNewFunc(fn) || len(fn.Blocks) != 1 || len(fn.Params) != len(args) || fn.Signature.Results().Len() != 1 {
+		return "", false
+	}
+	var ret *ssa.Return
+	for _, ins := range fn.Blocks[0].Instrs {
+		switch x := ins.(type) {
+		case *ssa.FieldAddr, *ssa.Field, *ssa.DebugRef:
+		case *ssa.UnOp:
+			if x.Op != token.MUL {
+				return "", false
+			}
+		case *ssa.Return:
+			ret = x
+		default:
+			return "", false
+		}
+	}
+	if ret == nil || len(ret.Results) != 1 {
+		return "", false
+	}
+	env := map[ssa.Value]string{}
+	for k, v := range pathEnv {
+		env[k] = v
+	}
+	for i, prm := range fn.Params {
+		env[prm] = args[i]
+	}
+	out := ""
+	withPathEnv(env, func() { out = accessPathD(ret.Results[0], depth+1) })
+	return out, true
+}
+
+
+// flipCmp: the operator of `b op' a` equivalent to `a op b`.
+func flipCmp(op token.Token) token.Token {
+	switch op {
+	case token.LSS:
+		return token.GTR
+	case token.GTR:
+		return token.LSS
+	case token.LEQ:
+		return token.GEQ
+	case token.GEQ:
+		return token.LEQ
+	}
+	return op
 }
